@@ -2,13 +2,18 @@
 #include <stdio.h>
 #include <stdlib.h>
 #include <string.h>
+#include <setjmp.h>
+static jmp_buf vf_jb;
+static int vf_fuzz;
 int vf_failed;
+int vf_quiet;
 int vf_assume_violated;
 static unsigned long long vf_rng = 0x9E3779B97F4A7C15ULL;
 static unsigned long long vf_digest = 1469598103934665603ULL;
 static int vf_random_inputs;
 void vf_exit(void)
 {
+    if (vf_fuzz) longjmp(vf_jb, 1);
     printf("REPLAY-END failed=%d assume_violated=%d digest=%016llx\n", vf_failed, vf_assume_violated, vf_digest);
     fflush(stdout);
     exit(vf_failed ? 10 : (vf_assume_violated ? 3 : 0));
@@ -37,6 +42,22 @@ void vf_observe(const void *p, unsigned long n)
 void HARNESS(void);
 int main(int argc, char **argv)
 {
+    if (argc > 3 && !strcmp(argv[1], "fuzz")) {
+        /* co-execution: run the harness on seeded random inputs against the REAL object code; every run whose assumptions hold
+         * must satisfy the assertions CBMC proved on the lowered C */
+        long n = atol(argv[2]), eff = 0, i;
+        unsigned long long seed = strtoull(argv[3], 0, 10);
+        vf_fuzz = 1; vf_random_inputs = 1; vf_quiet = 1;
+        for (i = 0; i < n && !vf_failed; ++i) {
+            vf_rng = (seed + 1) * 0x2545F4914F6CDD1DULL + (unsigned long long)i * 0x9E3779B97F4A7C15ULL + 1;
+            vf_assume_violated = 0;
+            if (!setjmp(vf_jb)) HARNESS();
+            if (!vf_assume_violated) ++eff;
+            if (vf_failed) printf("FUZZ-FAIL iteration=%ld\n", i);
+        }
+        printf("FUZZ-END runs=%ld effective=%ld failed=%d\n", i, eff, vf_failed);
+        return vf_failed ? 10 : 0;
+    }
     if (argc > 1) { vf_random_inputs = 1; vf_rng ^= strtoull(argv[1], 0, 10) * 0x2545F4914F6CDD1DULL + 1; }
     HARNESS();
     vf_exit();
